@@ -45,6 +45,11 @@ REQUIRED_THEOREMS = [
     "C10_kl_nonneg_none", "C10_kl_nonneg_mixed_none", "C10_pureBorn_dense", "C10_mixedBorn_dense", "C10_nll_born", "C10_nll_born_mixed",
     "C10_nll_formula_born", "C10_nll_formula_born_mixed", "C10_kl_nonneg_rbm", "C10_kl_nonneg_rbm_pos", "C10_kl_nonneg_mixed_rbm",
     "C10_fid_mixed_self_rbm", "C10_fid_mixed_rbm", "C10_fid_space_perm", "C10_kl_space_perm",
+    # x-packages: non-default dictionaries (states constructed with unitary_dict=create_dict(**kw); the driver runs Metrics.userDict kw)
+    "C10_userDict_nil", "C10_userDict_registered", "C10_userDict_untouched", "C10_userDict_unitary", "C10_userDict_Z",
+    "C10_userDict_siteUs", "C10_userDict_siteUs_fast", "C10_nll_born_rbm_dict", "C10_nll_born_rbm_mixed_dict",
+    "C10_nll_born_rbm_userDict", "C10_nll_born_rbm_mixed_userDict", "C10_kl_nonneg_rbm_userDict", "C10_kl_nonneg_mixed_rbm_userDict",
+    "C10_kl_formula_dense", "C10_kl_formula_dense_mixed", "C10_kl_self_zero_mixed_rbm", "C10_kl_self_zero_rbm_pos",
 ]
 EXTRA_TRUSTED = [
     "np.linalg.eigvals is external to the model (its result is an argument of fidelityMixed); the harness checks every "
@@ -60,8 +65,8 @@ EXTRA_TRUSTED = [
 THEOREMS = {
     "fid_pure": "C10_fid_overlap, C10_fid_range, C10_fid_self, C10_fid_phase_invariant",
     "fid_mixed": "C10_fid_mixed_uhlmann, C10_fid_mixed_range",
-    "kl": "C10_kl_formula, C10_kl_formula_one, C10_kl_nonneg, C10_kl_self_zero",
-    "nll": "C10_nll_formula, C10_nll_formula_born",
+    "kl": "C10_kl_formula, C10_kl_formula_one, C10_kl_formula_dense, C10_kl_nonneg, C10_kl_self_zero, C10_userDict_registered",
+    "nll": "C10_nll_formula, C10_nll_formula_born, C10_nll_born_rbm_userDict",
     "kind": "C10_kind",
 }
 RULE = ("case = (op in {fidelity, KL, NLL}, state kind in {pos, cplx, dens}, n<=3 (4 thorough), h, a, parameters = scale*N(0,1) with all "
@@ -83,7 +88,12 @@ RULE = ("case = (op in {fidelity, KL, NLL}, state kind in {pos, cplx, dens}, n<=
         "recorded) and, on a coin, once before with the state's parameters changed in place (the record at index 0 must be that state's value, "
         "the one at -1 / 1 the case's); the model is told the VALUES; cases without `aseed` replay with plain ints / bools by keyword; non-trivial iff some bias != 0 and (target not real or a basis has a Y or "
         "X) ; malformed stream and call forms the code rejects (empty bases, key mismatch, mask length mismatch, empty samples, alias+target, dict target "
-        "with 2-D ndarray bases, sample_bases as list[str]): outside the property's quantifier, recorded as outcome counters only, no verdict; distinct by hash of the case")
+        "with 2-D ndarray bases, sample_bases as list[str]): outside the property's quantifier, recorded as outcome counters only, no verdict; distinct by hash of the case; "
+        "DICTIONARIES (x-packages): for every n a second ComplexWaveFunction / DensityMatrix state is constructed with unitary_dict= holding user-registered letters "
+        "(H, S, T, random unitaries Q, R, exact gates N, P, V, W; X or Y overridden / swapped in about half; Z sometimes registered explicitly as the identity, never "
+        "as anything else), built as create_dict(**tensors), create_dict(**nested int lists) or a hand-made dict (state key `udict`, `udict_form`); its whole KL / NLL "
+        "sweep draws bases over defaults + registered letters (every registered letter at least once); the model gets the keyword entries (Metrics.userDict); "
+        "quick tier: additionally one n = 4 state per state type and dictionary variant")
 
 EPS = float(torch.finfo(torch.float64).eps)
 S2 = 1.0 / np.sqrt(2.0)
@@ -94,11 +104,98 @@ DICT = {  # independent re-statement of create_dict()
 }
 
 
-def dense_U(basis):
+def udict_np(s):
+    """the dictionary the state of descriptor `s` rotates with, as numpy matrices: the defaults, overridden / extended by the entries the
+    state was constructed with (`s["udict"]`, only for the state types that take `unitary_dict=`); independent of the library"""
+    d = dict(DICT)
+    if s is not None and s.get("udict") and s["kind"] != "pos":
+        for k, m in s["udict"].items():
+            d[k] = np.asarray(m["re"], dtype=float) + 1j * np.asarray(m["im"], dtype=float)
+    return d
+
+
+def dense_U(basis, s=None):
+    """dense Kronecker product of the registered single-site matrices of the letters of `basis` (site 0 leftmost)"""
+    d = udict_np(s)
     U = np.array([[1.0 + 0j]])
     for b in basis:
-        U = np.kron(U, DICT[b])
+        U = np.kron(U, d[b])
     return U
+
+
+def udict_torch(s):
+    """the `unitary_dict=` argument for the state constructors: None (default dictionary) or a dictionary with the user's letters, built as
+    `create_dict(**extra)` with pair tensors / nested lists, or by hand as a plain dict(str, tensor) holding defaults + extras"""
+    if not s.get("udict") or s["kind"] == "pos":
+        return None
+    import qucumber.utils.unitaries as un
+    form = s.get("udict_form", "create_dict/tensor")
+    pairs = {k: [m["re"], m["im"]] for k, m in s["udict"].items()}
+    if form == "create_dict/list":
+        # nested lists of Python INTS (create_dict converts a list of Python floats through float32: C04's observation; not C10's subject)
+        return un.create_dict(**{k: [[[int(x) for x in row] for row in part] for part in v] for k, v in pairs.items()})
+    tens = {k: torch.tensor(v, dtype=torch.double) for k, v in pairs.items()}
+    if form == "plain":
+        d = {k: cvec_t(v) for k, v in DICT.items()}  # hand-made dict(str, tensor): defaults written out by the caller
+        d.update(tens)
+        return d
+    return un.create_dict(**tens)
+
+
+def udict_req(s):
+    """the keyword entries as the driver takes them: [[letter, [[c00, c01], [c10, c11]]]], c = [re bits, im bits]"""
+    if not s.get("udict") or s["kind"] == "pos":
+        return {}
+    return {"dict": [[k, [[[f2b(m["re"][r][c]), f2b(m["im"][r][c])] for c in range(2)] for r in range(2)]] for k, m in s["udict"].items()]}
+
+
+def rand_unitary2(rng):
+    a = np.array([[complex(rng.gauss(0, 1), rng.gauss(0, 1)) for _ in range(2)] for _ in range(2)])
+    q, r = np.linalg.qr(a)
+    return q * (np.diag(r) / np.abs(np.diag(r)))
+
+
+def m2json(m):
+    m = np.asarray(m, dtype=complex)
+    return {"re": m.real.tolist(), "im": m.imag.tolist()}
+
+
+UDICT_FORMS = ("create_dict/tensor", "create_dict/list", "plain")  # how the caller built the `unitary_dict=` argument
+EXACT_POOL = {  # unitaries with entries in {0, +-1, +-i}: can be registered as nested lists of ints
+    "N": np.array([[0, 1], [1, 0]], dtype=complex), "P": np.array([[1, 0], [0, 1j]], dtype=complex),
+    "W": np.array([[0, -1j], [1j, 0]], dtype=complex), "V": np.array([[0, 1j], [1, 0]], dtype=complex),
+}
+
+
+def gen_udict(rng, exact=False):
+    """user-registered letters: H (Hadamard), S (the S-dagger-then-Hadamard change to the Y basis with the other sign convention), Q, R (random
+    unitaries), optionally an OVERRIDDEN X or Y (random unitary / the two swapped). Z is never overridden (non-identity Z: finding F20 of C04)."""
+    if exact:
+        d = {k: EXACT_POOL[k] for k in rng.sample(sorted(EXACT_POOL), rng.choice([1, 2, 3]))}
+        if rng.random() < 0.4:
+            d[rng.choice("XY")] = EXACT_POOL[rng.choice("NVW")]
+        if rng.random() < 0.25:
+            d["Z"] = np.eye(2, dtype=complex)  # Z registered explicitly, as the identity (inside C10_userDict_Z's hypothesis)
+        return {k: m2json(v) for k, v in d.items()}
+    d = {}
+    pool = {"H": S2 * np.array([[1, 1], [1, -1]], dtype=complex),
+            "S": S2 * np.array([[1, 1j], [1, -1j]], dtype=complex),
+            "Q": rand_unitary2(rng), "R": rand_unitary2(rng),
+            "T": np.array([[1, 0], [0, np.exp(0.25j * np.pi)]], dtype=complex) @ (S2 * np.array([[1, 1], [1, -1]], dtype=complex))}
+    for k in rng.sample(sorted(pool), rng.choice([1, 2, 3])):
+        d[k] = pool[k]
+    if "Q" not in d and rng.random() < 0.6:
+        d["Q"] = pool["Q"]
+    r = rng.random()
+    if r < 0.25:
+        d["X"] = rand_unitary2(rng)
+    elif r < 0.5:
+        d["Y"] = rand_unitary2(rng)
+    elif r < 0.6:
+        d["X"], d["Y"] = DICT["Y"], DICT["X"]
+    if rng.random() < 0.25:
+        d["Z"] = np.eye(2, dtype=complex)  # Z registered explicitly, as the identity (inside C10_userDict_Z's hypothesis)
+    return {k: m2json(v) for k, v in d.items()}
 
 
 # ---------------------------------------------------------------- state construction
@@ -114,17 +211,18 @@ def plain(A):
 def make_state(s, A=None):
     """`A`: the case's stream of argument forms (harness/argforms_a.py): every size / `gpu` of the state and RBM constructors is handed over in
     the case's forms, keyword or positional; None / unseeded = the plain calls of qc.make_*"""
+    ud = udict_torch(s)
     if plain(A):
         if s["kind"] == "pos":
             return qc.make_positive(s["n"], s["h"], s["am"])
         if s["kind"] == "cplx":
-            return qc.make_complex(s["n"], s["h"], s["am"], s["ph"])
-        return qc.make_density(s["n"], s["h"], s["a"], s["am"], s["ph"])
+            return qc.make_complex(s["n"], s["h"], s["am"], s["ph"], unitary_dict=ud)
+        return qc.make_density(s["n"], s["h"], s["a"], s["am"], s["ph"], unitary_dict=ud)
     if s["kind"] == "pos":
         return af.make_positive(A, s["n"], s["h"], s["am"])
     if s["kind"] == "cplx":
-        return af.make_complex(A, s["n"], s["h"], s["am"], s["ph"])
-    return af.make_density(A, s["n"], s["h"], s["a"], s["am"], s["ph"])
+        return af.make_complex(A, s["n"], s["h"], s["am"], s["ph"], unitary_dict=ud)
+    return af.make_density(A, s["n"], s["h"], s["a"], s["am"], s["ph"], unitary_dict=ud)
 
 
 def want_sizes(s):
@@ -149,6 +247,7 @@ def state_req(s):
         r["ph"] = qc.pbits(s["ph"])
     if s["kind"] == "dens":
         r["a"] = s["a"]
+    r.update(udict_req(s))
     return r
 
 
@@ -463,7 +562,7 @@ def rejected_forms(ctx, st, s, t):
     n = s["n"]
     mixed = s["kind"] == "dens"
     T = cvec_t(t)
-    U = lambda b: dense_U(b)  # noqa: E731
+    U = lambda b: dense_U(b, s)  # noqa: E731
     b1, b2 = "X" * n, "Z" * n
     d = {b: cvec_t(U(b) @ t @ U(b).conj().T if mixed else U(b) @ t) for b in (b1, b2)}
     samp = own_space(n)[: 2]
@@ -561,7 +660,9 @@ def fidelity_case(ctx, case, st=None, A=None):
             # the matrix handed to eigvals, up to similarity (spec(AB) = spec(BA): the operand order of the product, a transposed or re-ordered
             # matrix are not constrained): normalised power traces tr((A/s)^k), k = 1..N, of the captured argument vs the model's target * rho / Z
             Mm = mp[..., 0] + 1j * mp[..., 1]
-            s_ = float(max(np.max(np.abs(cap["arg"])), np.max(np.abs(Mm)))) + 1e-300
+            # normalised by the Frobenius norm (>= spectral radius): every |tr((A/s)^k)| <= N, so the absolute tolerance of the point is meaningful for
+            # all k (x-packages: with the largest ENTRY as the scale the traces grew like 7^k at n = 4 and rounding at k = 16 tripped the point)
+            s_ = float(max(np.linalg.norm(cap["arg"]), np.linalg.norm(Mm))) + 1e-300
             pt = lambda X: np.array([np.trace(np.linalg.matrix_power(X / s_, k_)) for k_ in range(1, X.shape[0] + 1)])  # noqa: E731
             pa, pm = pt(cap["arg"]), pt(Mm)
             ctx.point("fidelity.eigvals_argument (power traces: invariant under similarity / operand order)", "aux", np.stack([pa.real, pa.imag], -1).ravel(),
@@ -592,14 +693,14 @@ def fidelity_case(ctx, case, st=None, A=None):
 
 # ---------------------------------------------------------------- KL
 def born_oracle(s, psi_hat, rho_hat, basis):
-    U = dense_U(basis)
+    U = dense_U(basis, s)
     if s["kind"] == "dens":
         return np.real(np.diag(U @ rho_hat @ U.conj().T))
     return np.abs(U @ psi_hat) ** 2
 
 
 def target_born(s, t, basis):
-    U = dense_U(basis)
+    U = dense_U(basis, s)
     if s["kind"] == "dens":
         return np.real(np.diag(U @ t @ U.conj().T))
     return np.abs(U @ t) ** 2
@@ -616,7 +717,13 @@ def kl_case(ctx, case, st=None, A=None):
     cf = case.get("call")
     cform = (cf or {}).get("form", "positional")
     cont = (cf or {}).get("bases_as", "list")
-    sig0 = f"KL/{s['kind']}/{tclass}/{form}/{'none' if bases is None else 'list'}" + ("" if cf is None else f"/call={cform}/{cont}")
+    userd = bool(s.get("udict")) and s["kind"] != "pos"
+    sig0 = f"KL/{s['kind']}{'+udict' if userd else ''}/{tclass}/{form}/{'none' if bases is None else 'list'}" + ("" if cf is None else f"/call={cform}/{cont}")
+    used = set("".join(bases or []) + "".join((case.get("keys") or []) if form == "dict" else []))
+    ctx.count("kl.dict=" + ("user" if userd else "default"))
+    if userd:
+        ctx.count(f"kl.dict=user:form={s.get('udict_form')}")
+        ctx.count("kl.dict=user:" + ("bases use a user-registered / overridden letter" if used & set(s["udict"]) else "bases use untouched default letters only" if used else "no bases"))
     hasrot = bases is not None and any(c != "Z" for b in bases for c in b)
     ctx.case(case, nontrivial=nontrivial_state(s) and (hasrot or tclass != "real"),
              sample={"op": "KL", "kind": s["kind"], "n": n, "tclass": tclass, "form": form, "bases": bases, "scale": s["scale"], "call": cform, "bases_as": cont})
@@ -628,7 +735,7 @@ def kl_case(ctx, case, st=None, A=None):
     perm = cf["perm"] if cform == "space_perm" else None
 
     def rotated(b):  # target rotated into basis b by the dense Kronecker unitary (harness-side, independent)
-        U = dense_U(b)
+        U = dense_U(b, s)
         return U @ t @ U.conj().T if mixed else U @ t
 
     if form == "dict":
@@ -709,7 +816,11 @@ def nll_case(ctx, case, st=None, A=None):
     cf = case.get("call")
     cform = (cf or {}).get("form", "positional")
     cont = (cf or {}).get("bases_as", "nd2")
-    sig0 = f"NLL/{s['kind']}/{'none' if sb is None else 'bases'}" + ("" if cf is None else f"/call={cform}/{cont}")
+    userd = bool(s.get("udict")) and s["kind"] != "pos"
+    sig0 = f"NLL/{s['kind']}{'+udict' if userd else ''}/{'none' if sb is None else 'bases'}" + ("" if cf is None else f"/call={cform}/{cont}")
+    ctx.count("nll.dict=" + ("user" if userd else "default"))
+    if userd and sb is not None:
+        ctx.count("nll.dict=user:rows with a user-registered / overridden letter", sum(1 for b in sb if set(b) & set(s["udict"])))
     ctx.case(case, nontrivial=nontrivial_state(s) and len(samples) > 1,
              sample={"op": "NLL", "kind": s["kind"], "n": n, "N": len(samples), "sample_bases": sb if sb is None else sb[:4], "scale": s["scale"], "call": cform})
     ctx.count("op=NLL"); ctx.count(f"kind={s['kind']}"); ctx.count(f"n={n}"); ctx.count(f"nll.call={cform}")
@@ -790,7 +901,18 @@ def product_state(rng, n):
     return v
 
 
-def pick_bases(rng, n, thorough, everything=False):
+def pick_bases(rng, n, thorough, everything=False, alphabet="XYZ"):
+    if alphabet != "XYZ":
+        # a dictionary with user-registered letters: bases over defaults + extras, every extra letter used at least once
+        allb = qc.all_bases(n, alphabet)
+        k = 12 if thorough else 7
+        sel = list(allb) if len(allb) <= k else rng.sample(allb, k)
+        rng.shuffle(sel)
+        for e in alphabet[3:]:
+            if not any(e in b for b in sel):
+                b = list(rng.choice(allb)); b[rng.randrange(n)] = e
+                sel.insert(rng.randrange(len(sel) + 1), "".join(b))
+        return sel
     allb = qc.all_bases(n)
     if everything or n <= (3 if thorough else 2):
         sel = list(allb)
@@ -807,12 +929,20 @@ def _gen_cases(ctx, thorough):
     rng = ctx.rng
     ns = [1, 2, 3, 4] if thorough else [1, 2, 3]
     reps = 6 if thorough else 1
+    ud_off, ud_k = rng.randrange(len(UDICT_FORMS)), 0
     for n in ns:
         N = 2 ** n
-        for kind in ("pos", "cplx", "dens"):
+        # (x-packages) the last two variants: a state constructed with `unitary_dict=` holding user-registered letters (and possibly an
+        # overridden X / Y); every KL / NLL case below then draws its bases over defaults + extras
+        for kind, ud in (("pos", False), ("cplx", False), ("dens", False), ("cplx", True), ("dens", True)):
             for rep in range(reps):
                 scale = rng.choice([0.3, 1.0, 1.0, 2.0])
                 s = gen_state(rng, kind, n, scale)
+                alphabet = "XYZ"
+                if ud:
+                    s["udict_form"] = UDICT_FORMS[(ud_off + ud_k) % len(UDICT_FORMS)]; ud_k += 1  # every form in every run
+                    s["udict"] = gen_udict(rng, exact=s["udict_form"] == "create_dict/list")
+                    alphabet = "XYZ" + "".join(sorted(k for k in s["udict"] if k not in "XYZ"))
                 st = make_state(s)
                 psi_hat, rho_hat, Z = impl_state(st, s)
                 alpha = rng.uniform(0.3, 2.8)
@@ -838,7 +968,7 @@ def _gen_cases(ctx, thorough):
                 for (tclass, t) in targets:
                     yield {"op": "fidelity", "state": s, "tclass": tclass, "target": cjson(t), "alpha": alpha}
                 # ---------- KL
-                sel = pick_bases(rng, n, thorough, everything=thorough and rep == 0)
+                sel = pick_bases(rng, n, thorough, everything=thorough and rep == 0, alphabet=alphabet)
                 for (tclass, t) in targets:
                     yield {"op": "kl", "state": s, "tclass": tclass, "target": cjson(t), "form": "once", "bases": None, "keys": None}
                     # the list of bases: all selected (mean over many), and a short list with a Y
@@ -911,6 +1041,8 @@ def _gen_cases(ctx, thorough):
                         s0 = gen_state(rng, kind, n, rng.choice([0.3, 1.0, 2.0]))
                         while s0["h"] != s["h"] or s0.get("a") != s.get("a"):
                             s0 = gen_state(rng, kind, n, rng.choice([0.3, 1.0, 2.0]))
+                        if s.get("udict"):  # the same state OBJECT later holds the case's parameters: it keeps the dictionary it was built with
+                            s0["udict"], s0["udict_form"] = s["udict"], s["udict_form"]
                         pre["reparam_from"] = s0
                     return pre
                 for (tclass, t) in rng.sample(targets, 2):
@@ -933,12 +1065,47 @@ def _gen_cases(ctx, thorough):
             samples = qc.all_states(n)
             yield {"op": "nll", "state": s, "samples": samples, "sample_bases": None, "perm": None}
             yield {"op": "nll", "state": s, "samples": samples, "sample_bases": [rng.choice(sel + ["Z" * n]) for _ in samples], "perm": None}
+            if kind != "pos":
+                # (x-packages) clamp-active probes under a user dictionary: large parameters, bases with registered letters
+                s = gen_state(rng, kind, n, 12.0)
+                s["udict"] = gen_udict(rng); s["udict_form"] = "create_dict/tensor"
+                selu = pick_bases(rng, n, False, alphabet="XYZ" + "".join(sorted(k for k in s["udict"] if k not in "XYZ")))[:3]
+                yield {"op": "kl", "state": s, "tclass": "random", "target": cjson(t), "form": "once", "bases": selu, "keys": None}
+                yield {"op": "kl", "state": s, "tclass": "random", "target": cjson(t), "form": "dict", "bases": None, "keys": selu[:2]}
+                yield {"op": "nll", "state": s, "samples": samples, "sample_bases": [rng.choice(selu + ["Z" * n]) for _ in samples], "perm": None}
             s = gen_state(rng, kind, n, 1.0)
             yield {"op": "kl", "state": s, "tclass": "random", "target": cjson(t), "form": "once", "bases": [], "keys": None, "malformed": True}
             yield {"op": "kl", "state": s, "tclass": "random", "target": cjson(t), "form": "dict", "bases": ["Z" * n, "X" * n], "keys": ["Z" * n], "malformed": True}
             yield {"op": "nll", "state": s, "samples": samples, "sample_bases": ["X" * n], "perm": None, "malformed": n > 0}
             yield {"op": "nll", "state": s, "samples": [], "sample_bases": [], "perm": None, "malformed": True}
             yield {"op": "nll", "state": s, "samples": [], "sample_bases": None, "perm": None, "malformed": True}
+
+
+def _gen_quick_n4(ctx):
+    """(x-packages) the quick tier stopped at n = 3: one n = 4 state per state type (and per dictionary variant) with the plain call of every
+    metric on every path"""
+    rng = ctx.rng
+    n, N = 4, 16
+    for kind, ud in (("pos", False), ("cplx", False), ("dens", False), ("cplx", True), ("dens", True)):
+        s = gen_state(rng, kind, n, rng.choice([0.3, 1.0]))
+        alphabet = "XYZ"
+        if ud:
+            s["udict"] = gen_udict(rng); s["udict_form"] = "create_dict/tensor"
+            alphabet = "XYZ" + "".join(sorted(k for k in s["udict"] if k not in "XYZ"))
+        sel = pick_bases(rng, n, False, alphabet=alphabet)
+        t = rand_cvec(rng, N) if kind != "dens" else rand_dm(rng, N)
+        short = rng.sample(sel, 2)
+        if not ud:
+            if True:
+                yield {"op": "fidelity", "state": s, "tclass": "random", "target": cjson(t), "alpha": 0.7}
+            yield {"op": "kl", "state": s, "tclass": "random", "target": cjson(t), "form": "once", "bases": None, "keys": None}
+        yield {"op": "kl", "state": s, "tclass": "random", "target": cjson(t), "form": "once", "bases": short, "keys": None}
+        yield {"op": "kl", "state": s, "tclass": "random", "target": cjson(t), "form": "dict", "bases": None, "keys": short}
+        Ns = 6
+        samples = [[rng.randrange(2) for _ in range(n)] for _ in range(Ns)]
+        yield {"op": "nll", "state": s, "samples": samples, "sample_bases": [rng.choice(short + ["Z" * n]) for _ in range(Ns)], "perm": [5, 0, 3, 1, 4, 2]}
+        if not ud:
+            yield {"op": "nll", "state": s, "samples": samples, "sample_bases": None, "perm": None}
 
 
 PRELUDE_HOW = ("flip_spin", "sample_overwrite", "edit", "zero_", "fill_", "complement", "numpy_view", "copy_")
@@ -1035,8 +1202,10 @@ def dispatch(ctx, case):
 def gen_cases(ctx, thorough):
     """the cases of `_gen_cases`, each with the seed of its own stream of argument forms (drawn from the generator's rng, so a run is a
     function of VERIF_SEED and a stored case carries everything needed to hand over the same objects again)"""
-    for case in _gen_cases(ctx, thorough):
+    for case in itertools.chain(_gen_cases(ctx, thorough), () if thorough else _gen_quick_n4(ctx)):
         case["aseed"] = af.draw_aseed(ctx.rng)
+        if case["state"].get("udict") and (case["op"] == "rejected" or (case["op"] == "fidelity" and (case.get("call") or case.get("prelude")))):
+            continue  # fidelity never touches the dictionary: for the user-dictionary states only the plain fidelity calls are kept
         yield case
 
 
